@@ -16,6 +16,7 @@ use serde_json::{json, Value};
 use std::path::PathBuf;
 use std::sync::Arc;
 use sudachi::analysis::stateless_tokenizer::DictionaryAccess;
+use sudachi::dic::build::DictBuilder;
 use sudachi::dic::dictionary::JapaneseDictionary;
 use sudachi::dic::storage::{Storage, SudachiDicData};
 use sudachi::dic::word_id::WordId;
@@ -105,6 +106,10 @@ fn baseline(user: bool, matrix: Matrix) -> Case {
     let user_rows = vec![
         Row::new("府", 1, 1, 2914, P_NOUN).reading("フ"),
         Row::new("府の", 1, 1, 3000, P_NOUN).reading("フノ").dic_form("U0"),
+        // two parts of speech of its own: the first is also brought by the dictionary that is loaded in front of this
+        // one when it is read back as user dictionary 2, the second is new there too
+        Row::new("ゆ", 0, 0, 55, ["被子植物門", "双子葉植物綱", "ムクロジ目", "ミカン科", "ミカン属", "スダチ"]).reading("ユ"),
+        Row::new("ゆず", 0, 0, 56, ["被子植物門", "双子葉植物綱", "ムクロジ目", "ミカン科", "ミカン属", "ユズ"]).reading("ユズ"),
         Row::new("す", 0, 0, 10, P_NOUN).reading("ス"),
         Row::new("を", 1, 1, 20, P_PROPN).reading("ヲ").norm("お").splits("C", "0/U0", "*"),
     ];
@@ -618,6 +623,127 @@ impl Space for RoundTrip {
     }
 }
 
+/// the lexicon handed to one builder in several `read_lexicon` calls, with `resolve()` calls in between (some of
+/// them fail because an inline reference names a word that only a later call brings): what is finally compiled
+/// and loaded must read back as declared, exactly as when the whole text is read at once
+fn history_cases(dir: PathBuf, user: bool, max_cuts: usize) -> CaseSpace<(Vec<usize>, u8)> {
+    let mut case = baseline(user, Matrix::distinct(3, 3));
+    {
+        let rows = if user { &mut case.user } else { &mut case.system };
+        // forward inline references: to a word two rows below (same dictionary) and to the homograph read like its key
+        rows.push(
+            Row::new("んさわ", 1, 1, 800, P_NOUN)
+                .reading("ンサワ")
+                .splits("C", "い,名詞,普通名詞,一般,*,*,*,イ/さわ,名詞,普通名詞,一般,*,*,*,サワ", "ab,名詞,普通名詞,一般,*,*,*,ab/さわ,名詞,普通名詞,一般,*,*,*,サワ"),
+        );
+        rows.push(Row::new("わわ", 1, 1, 805, P_VERB).reading("ワワ"));
+        rows.push(Row::new("さわ", 1, 1, 810, P_NOUN).reading("サワ"));
+        rows.push(Row::new("さわわ", 0, 0, 820, P_NOUN).reading("サワワ").splits("C", "さわ,名詞,普通名詞,一般,*,*,*,サワ/わわ,動詞,一般,*,*,五段-カ行,終止形-一般,ワワ", "*"));
+    }
+    let n = if user { case.user.len() } else { case.system.len() };
+    let mut cases: Vec<(Vec<usize>, u8)> = Vec::new();
+    fn subsets(from: usize, n: usize, left: usize, cur: &mut Vec<usize>, out: &mut Vec<(Vec<usize>, u8)>) {
+        for f in 0..(1u8 << cur.len()) {
+            out.push((cur.clone(), f));
+        }
+        if left == 0 {
+            return;
+        }
+        for a in from..n {
+            cur.push(a);
+            subsets(a + 1, n, left - 1, cur, out);
+            cur.pop();
+        }
+    }
+    subsets(1, n, max_cuts, &mut Vec::new(), &mut cases);
+    let rt = RoundTrip { alignments: vec![0], dir: dir.clone(), devs: vec![], max_devs: 0, user };
+    CaseSpace {
+        label: format!("roundtrip/{}-read-in-several-calls", if user { "user-dictionary" } else { "system-dictionary" }),
+        cases,
+        check_fn: Box::new(move |(cuts, flags): &(Vec<usize>, u8)| {
+            let mut o = Outcome::new();
+            o.nontrivial = !cuts.is_empty();
+            o.evaluations = 1;
+            let ctx = format!("[{}] lexicon read in chunks cut before rows {:?}, resolve() after chunk(s) {:?}", if user { "user" } else { "system" }, cuts, (0..cuts.len()).filter(|i| flags & (1 << i) != 0).collect::<Vec<_>>());
+            let rows = if user { &case.user } else { &case.system };
+            let mut chunks: Vec<String> = Vec::new();
+            let mut start = 0usize;
+            for &c in cuts.iter().chain(std::iter::once(&rows.len())) {
+                chunks.push(rows_to_csv(&rows[start..c]));
+                start = c;
+            }
+            let matrix = case.matrix.to_text();
+            let sys_csv = rows_to_csv(&case.system);
+            let time = std::time::UNIX_EPOCH + std::time::Duration::from_secs(1_600_000_000);
+            let r = catch(|| -> Result<(Vec<u8>, Vec<Vec<u8>>, u64), String> {
+                let mut failed_resolves = 0u64;
+                let mut feed = |b: &mut dyn FnMut(&[u8]) -> Result<(), String>, res: &mut dyn FnMut() -> bool| -> Result<(), String> {
+                    for (i, ch) in chunks.iter().enumerate() {
+                        b(ch.as_bytes())?;
+                        if i + 1 < chunks.len() && flags & (1 << i) != 0 && !res() {
+                            failed_resolves += 1;
+                        }
+                    }
+                    Ok(())
+                };
+                if user {
+                    let sys = compile_system(&matrix, &sys_csv)?;
+                    let base = load(&dir, &bare_plugins(&pos_of(P_NOUN)), sys.clone(), vec![])?;
+                    let b = std::cell::RefCell::new(DictBuilder::new_user(&base));
+                    b.borrow_mut().set_compile_time(time);
+                    feed(&mut |d| b.borrow_mut().read_lexicon(d).map(|_| ()).map_err(|e| format!("read_lexicon: {}", e)), &mut || b.borrow_mut().resolve().is_ok())?;
+                    let mut b = b.into_inner();
+                    b.resolve().map_err(|e| format!("final resolve: {}", e))?;
+                    let mut out = Vec::new();
+                    b.compile(&mut out).map_err(|e| format!("compile: {}", e))?;
+                    Ok((sys, vec![out], failed_resolves))
+                } else {
+                    let b = std::cell::RefCell::new(DictBuilder::new_system());
+                    b.borrow_mut().set_compile_time(time);
+                    b.borrow_mut().read_conn(matrix.as_bytes()).map_err(|e| format!("read_conn: {}", e))?;
+                    feed(&mut |d| b.borrow_mut().read_lexicon(d).map(|_| ()).map_err(|e| format!("read_lexicon: {}", e)), &mut || b.borrow_mut().resolve().is_ok())?;
+                    let mut b = b.into_inner();
+                    b.resolve().map_err(|e| format!("final resolve: {}", e))?;
+                    let mut out = Vec::new();
+                    b.compile(&mut out).map_err(|e| format!("compile: {}", e))?;
+                    Ok((out, vec![], failed_resolves))
+                }
+            });
+            let (sys, users, failed) = match r {
+                Err(p) => {
+                    o.fail(Failure::panic(&format!("{} compiling", ctx), &p));
+                    return o;
+                }
+                Ok(Err(e)) => {
+                    // the whole text is accepted when read at once (case (no cut)): every cut of it has to be as well
+                    o.fail(Failure::new("rejected-in-chunks", format!("{}: {} (the same rows read by one call are accepted)", ctx, e)));
+                    return o;
+                }
+                Ok(Ok(x)) => x,
+            };
+            o.count("failed_intermediate_resolves", failed);
+            match catch(|| load_aligned(&dir, &sys, &users, 0)) {
+                Err(p) => o.fail(Failure::panic(&format!("{} loading", ctx), &p)),
+                Ok(Err(e)) => o.fail(Failure::new("load-error", format!("{}: {}", ctx, e))),
+                Ok(Ok(dict)) => {
+                    match catch(|| {
+                        let mut o2 = Outcome::new();
+                        rt.verify(&case, &dict, &ctx, &mut o2, 1);
+                        o2
+                    }) {
+                        Ok(o2) => o.failures.extend(o2.failures),
+                        Err(p) => o.fail(Failure::panic(&format!("{} reading back", ctx), &p)),
+                    }
+                    std::mem::forget(dict);
+                }
+            }
+            o.observe(&(cuts.len(), failed));
+            o
+        }),
+        describe_fn: Box::new(|(cuts, flags): &(Vec<usize>, u8)| json!({"cuts_before_rows": cuts, "resolve_after_chunk_mask": flags})),
+    }
+}
+
 pub fn main(tier: Tier, replay: Option<String>) -> i32 {
     let mut rep = Report::new("C05", "model_checking", tier);
     rep.rule = "states = sets of field deviations (on different fields) applied to the probe row / matrix of a baseline lexicon: baseline, every single deviation, every pair (and triples in the thorough tier), for a system dictionary and for a user dictionary; each accepted input is compiled twice (two threads, same timestamp; bytes must be identical), loaded at buffer alignment offsets 0, 1, 2 (thorough: and 3), and every field of every entry plus every matrix cell is read back through the public readers; non-trivial = at least one deviation".into();
@@ -632,6 +758,10 @@ pub fn main(tier: Tier, replay: Option<String>) -> i32 {
         let devs = deviations();
         let b = json!({"deviations": devs.len(), "max_simultaneous": tier.pick(2, 3)});
         jobs.push(job(RoundTrip { alignments: tier.pick(vec![0, 1, 2], vec![0, 1, 2, 3]), dir: dir.clone(), devs, max_devs: tier.pick(2, 3), user }, Strategy::Bfs, Some(tier.pick(50, 2400)), b));
+    }
+    for user in [false, true] {
+        let cuts = tier.pick(2, 3);
+        jobs.push(job(history_cases(dir.clone(), user, cuts), Strategy::Bfs, Some(tier.pick(50, 600)), json!({"max_cuts": cuts})));
     }
     drive(rep, jobs, replay)
 }
